@@ -579,7 +579,9 @@ class NDNApp:
         try:
             data_name, content, pkt_context = await aio.wait_for(future, timeout=lifetime/1000.0)
         except TimeoutError:
-            if node.timeout(future):
+            # The node may have left the PIT already (satisfied and under validation, or nacked), and a newer
+            # Interest may have created another node under the same name: only delete the node we were put into.
+            if node.timeout(future) and self._pit.get(node_name) is node:
                 del self._pit[node_name]
             raise types.InterestTimeout()
         except aio.CancelledError:
